@@ -793,10 +793,12 @@ func (s *Server) doModify(cid string, ops []*spb.AFTOperation, resCh chan *spb.M
 	cs, ok := s.getClientState(cid)
 	switch {
 	case !ok:
+		verifTrace("rpcerr", cid)
 		errCh <- status.Newf(codes.Internal, "operation received for unknown client, %s", cid).Err()
 		return
 	case cs.params == nil || !cs.params.ExpectElecID || !cs.params.Persist:
 		// these are parameters that we do not support.
+		verifTrace("rpcerr", cid)
 		errCh <- addModifyErrDetailsOrReturn(
 			status.New(codes.Unimplemented, "unsupported parameters for client"),
 			&spb.ModifyRPCErrorDetails{
@@ -858,6 +860,7 @@ func (s *Server) doModify(cid string, ops []*spb.AFTOperation, resCh chan *spb.M
 		res, err := modifyEntry(s.masterRIB, ni, o, cs.params.FIBAck, elec)
 		switch {
 		case err != nil:
+			verifTrace("rpcerr", cid)
 			errCh <- err
 		default:
 			verifTrace("resp", cid)
